@@ -9,7 +9,7 @@ from ..selftest import Mutant
 
 ID = "C13"
 TECHNIQUE = "who-may-call (K4) on the rename phases, CFG rollback pairing on every exception edge (K3), commit-point ordering (K1) across the bzr and git sibling transforms (ast)"
-FLOOR = 24
+FLOOR = 38
 TR = "breezy/transform.py"
 BT = "breezy/bzr/transform.py"
 GT = "breezy/git/transform.py"
